@@ -369,6 +369,7 @@ type scan struct {
 	fresh  map[string]bool
 
 	loopSections []loopSec
+	curFam       *family // family of the frame being walked (exported foreign calls are followed only from the top family's own code)
 }
 
 // frame: the function currently being walked (top or inlined)
@@ -460,6 +461,15 @@ func (sc *scan) lockOp(st lockState, fr *frame, owner string, f *family, m, op s
 			r.reacquire = true
 			r.detail = append(r.detail, fmt.Sprintf("%s.%s.%s while already held at %s", owner, m, op, pos(at)))
 		}
+		for hk := range st { // lock order: every mutex already held -> the one being acquired
+			parts := strings.Split(hk, "\x00")
+			if len(parts) == 3 {
+				lockEdges[parts[1]+"."+parts[2]+" "+f.Key+"."+m] = true
+				if os.Getenv("LOCKSCAN_DEBUG") != "" {
+					fmt.Fprintf(os.Stderr, "edge %s.%s -> %s.%s in %s at %s (held owner %q, new owner %q)\n", parts[1], parts[2], f.Key, m, sc.top.Name.Name, pos(at), parts[0], owner)
+				}
+			}
+		}
 		sc.nextID++
 		id := sc.nextID
 		st[k] = held{mode, id}
@@ -477,6 +487,8 @@ func (sc *scan) lockOp(st lockState, fr *frame, owner string, f *family, m, op s
 		}
 	}
 }
+
+var lockEdges = map[string]bool{}
 
 type loopSec struct {
 	k  rowKey
@@ -600,7 +612,10 @@ func (sc *scan) resolveForeign(prefix string, names []*ast.Ident) resolved {
 			if cfg, ok := f.guardOf(n.Name); ok {
 				return resolved{kind: "field", owner: prefix, fam: f, name: n.Name, cfg: cfg, rest: names[i+1:]}
 			}
-			if last && !isExported(n.Name) {
+			// unexported methods of any scanned type (they expect the caller to hold the lock), and exported
+			// methods of ANOTHER object family (self-locking: each call is one critical section of that object,
+			// which is what tells whether a function touches several sub-objects atomically)
+			if last && (!isExported(n.Name) || (sc.topFam != nil && sc.curFam == sc.topFam && f != sc.topFam && !f.Inner)) {
 				if m, mt := f.resolveAny(n.Name); m != nil {
 					return resolved{kind: "method", owner: prefix, fam: f, name: n.Name, method: m, mtyp: mt}
 				}
@@ -745,6 +760,16 @@ func (sc *scan) call(st lockState, fr *frame, c *ast.CallExpr, deferred bool) {
 		}
 	case "field":
 		if len(r.rest) == 1 { // method call on the guarded field
+			if strings.HasPrefix(r.cfg.Pointee, "fam:") && st != nil {
+				if pf := familyByKey(r.cfg.Pointee[4:]); pf != nil && !pf.Inner { // the pointee locks itself
+					for hk := range st {
+						parts := strings.Split(hk, "\x00")
+						if len(parts) == 3 {
+							lockEdges[parts[1]+"."+parts[2]+" "+pf.Key+"."+pf.DefaultMutex] = true
+						}
+					}
+				}
+			}
 			sc.access(st, r.owner, r.fam, r.name, r.cfg, sc.pointeeMutates(r.cfg, r.rest[0].Name), sel)
 		} else {
 			sc.access(st, r.owner, r.fam, r.name, r.cfg, false, sel)
@@ -763,7 +788,10 @@ func (sc *scan) inline(st lockState, fr *frame, r resolved) {
 	rn, _ := recvOf(r.method)
 	nf := &frame{recv: rn, fam: r.fam, typ: r.mtyp, owner: r.owner, loopDepth: fr.loopDepth}
 	sc.stack = append(sc.stack, r.method)
+	saved := sc.curFam
+	sc.curFam = r.fam
 	sc.block(st, nf, r.method.Body)
+	sc.curFam = saved
 	sc.stack = sc.stack[:len(sc.stack)-1]
 	if st != nil {
 		for _, k := range nf.deferred {
@@ -978,6 +1006,7 @@ func scanFunc(p *pkg, fd *ast.FuncDecl) *scan {
 		}
 	}
 	sc.stack = []*ast.FuncDecl{fd}
+	sc.curFam = sc.topFam
 	sc.block(lockState{}, fr, fd.Body)
 	sc.loopFix()
 	return sc
@@ -1115,6 +1144,22 @@ func main() {
 	b.WriteString("].\n\n")
 	cbRows := scanCallbacks(strings.TrimRight(*repo, "/"))
 	b.WriteString("(* places where one of the objects is constructed with callbacks: site, object, callbacks that are function\n   literals, calls from such a literal on the object being constructed (re-entrant), callbacks from elsewhere *)\n")
+	b.WriteString("(* lock order: (held, acquired) pairs of mutex classes seen in some function *)\n")
+	var edges []string
+	for e := range lockEdges {
+		edges = append(edges, e)
+	}
+	sort.Strings(edges)
+	b.WriteString("Definition lock_order : list (string * string) := [\n")
+	for i, e := range edges {
+		p := strings.SplitN(e, " ", 2)
+		sep := ";"
+		if i == len(edges)-1 {
+			sep = ""
+		}
+		fmt.Fprintf(&b, "  (%q, %q)%s\n", p[0], p[1], sep)
+	}
+	b.WriteString("].\n\n")
 	b.WriteString("Definition callback_table : list cb_row := [\n")
 	for i, r := range cbRows {
 		sep := ";"
